@@ -633,6 +633,13 @@ def r03_6(ctx: Ctx, roots) -> None:
             cfg_h = cfg_of(h.node)
             bounded = any(t.kind == "test" and isinstance(t.ast, ast.Compare) and isinstance(t.ast.ops[0], (ast.Gt, ast.GtE)) and cfg_h.dominates(t, q.node_for(h, c))
                           and any(e.kind == "true" and (q.branch_always_raises(cfg_h, e) or any(isinstance(n_.ast, ast.Return) for n_ in e.succ)) for e in t.succ) for t in cfg_h.nodes)
+            # ... and the counter only grows: a reset inside the walk (say, at every plain component) bounds unbroken chains of links only, and
+            # 'd/l -> ../d/l' is followed for ever
+            if bounded:
+                counters = {t.ast.left.id for t in cfg_h.nodes if t.kind == "test" and isinstance(t.ast, ast.Compare) and isinstance(t.ast.left, ast.Name) and isinstance(t.ast.ops[0], (ast.Gt, ast.GtE))
+                            and cfg_h.dominates(t, q.node_for(h, c))}
+                resets = [n for n in walk(h.node) if isinstance(n, ast.Assign) and isinstance(n.targets[0], ast.Name) and n.targets[0].id in counters and q.enclosing_loops(h, n)]
+                bounded = not resets
             ctx.check(bounded, "R03.6", h, c, f"{h.name}: the number of links followed is bounded",
                       f"{h.name} follows links without a bound: a link that leads to itself keeps the containment check (and with it extractall) busy for ever", construct=f"{h.name} unbounded link following")
     def cmp_names(h) -> set:
